@@ -393,6 +393,18 @@ def gen_c17(rng, n, tier):
                 # request of the pair c1:s1 -> c2:s1, or the receipt of the open request c2:s1 -> c1:s1
                 args = [r.choice(["ibtp:c1:s1,c2:s1,2,req,0", "ibtp:c2:s1,c1:s1,1,ok,0", "ibtp:c2:s1,c1:s1,1,fail,0", "ibtp:c1:s2,c2:s1,1,req,0"])]
                 tags.add("internal:acceptable-ibtp")
+            if c == "txmgr" and m in ("BeginInterBitXHub", "Begin", "Report") and r.random() < 0.7:
+                # the transaction manager's entries with the id of a record that EXISTS (the open request c2:s1 -> c1:s1 of the warm-up
+                # traffic, or the answered one): a guard that only the new-record path still passes through must not be the only one
+                # (seeding round 26); the bytes are a BxhProof naming BEGIN_FAILURE / BEGIN_ROLLBACK
+                tid = r.choice(["1356:c2:s1-1356:c1:s1-1", "1356:c2:s1-1356:c1:s1-1", "1356:c1:s1-1356:c2:s1-1"])
+                if m == "BeginInterBitXHub":
+                    args = [f"s:{tid}", "u:0", r.choice(["x:0801", "x:0802"]), "b:0"]
+                elif m == "Begin":
+                    args = [f"s:{tid}", r.choice(["u:0", "u:5"]), r.choice(["b:0", "b:1"])]
+                else:
+                    args = [f"s:{tid}", r.choice(["i:0", "i:1", "i:2"])]
+                tags.add("internal:existing-record")
             ops.append("q dump")
             ops.append(f"block bvm {caller} {c} {m} " + " ".join(args))
             ops.append("q dump")
